@@ -21,11 +21,18 @@ import json
 
 def gen_scripts(rng, tier):
     n = 80 if tier == "quick" else 1500
-    return [oplists.gen_script(rng, late_add=False, n_ops=rng.randrange(6, 24), fault=0.2) for i in range(n)]
+    return [oplists.gen_script(rng, late_add=False, n_ops=rng.randrange(6, 24), fault=0.2, p_finish_open=0.12) for i in range(n)]
 
 
 def oracle_scripts(case, obs):
-    return oracles.note_failures(obs, ("probe_mismatch", "logging_raised", "foreign_exception"))
+    bad = oracles.note_failures(obs, ("probe_mismatch", "logging_raised", "foreign_exception"))
+    if bad:
+        return bad
+    for i, ms in obs.get("raw", {}).items():
+        bad = oplists.attribution(case, ms)      # children attach to the action current at their start
+        if bad:
+            return bad
+    return None
 
 
 FAMILIES.append(Family("scripts", gen_scripts, oplists.run_case, oplists.model_expr, oplists.model_obs, oracle_scripts,
